@@ -299,6 +299,41 @@ def check(prop, tier, args):
         rep.refuted('C18/application/value-escaped', 'online_check', 'value-escaped', 'the submitted text is not escaped with quote=True',
                     dict(query='number=%22%3E%3Cscript%3E', real=[r[0], r[2][:300] if len(r) > 2 and isinstance(r[2], str) else r[1]]),
                     len(r) > 2 and isinstance(r[2], str) and '"><script>' in r[2])
+    # -- the conversions: every call of a library getter / converter sits under a handler for Exception (the getters are not
+    #    total on valid numbers, see the C12 findings; the application relies on this handler)
+    gc = front.func_of(wsgi.get_conversions, Func)
+    unguarded = []
+
+    def walk_guard(node, guarded):
+        if isinstance(node, ast.Try):
+            g = guarded or any(h.type is None or (isinstance(h.type, ast.Name) and h.type.id in ('Exception', 'BaseException')) or
+                               (isinstance(h.type, ast.Tuple) and any(isinstance(e_, ast.Name) and e_.id in ('Exception', 'BaseException') for e_ in h.type.elts))
+                               for h in node.handlers)
+            for ch in node.body:
+                walk_guard(ch, g)
+            for ch in node.handlers + node.orelse + node.finalbody:
+                walk_guard(ch, guarded)
+            return
+        if isinstance(node, ast.Call) and isinstance(node.func, ast.Name) and node.func.id == 'func' and not guarded:
+            unguarded.append(ast.unparse(node))
+        for ch in ast.iter_child_nodes(node):
+            walk_guard(ch, guarded)
+    walk_guard(gc.node, False)
+    if not unguarded:
+        rep.add('C18/get_conversions/guarded', 'proved', 'ast', detail='every func(number) call is under an except Exception handler')
+    else:
+        wit = None
+        from ..report import load_known
+        import urllib.parse as _up
+        cands = [(k_.get('witness') or {}).get('input') for k_ in load_known() if k_['property'] == 'C12']
+        for x_ in [c_ for c_ in cands if isinstance(c_, str)]:
+            r = call_app(wsgi, 'number=' + _up.quote(x_))
+            if r[0] == 'EXC':
+                wit = ('number=' + _up.quote(x_), r)
+                break
+        rep.refuted('C18/get_conversions/guarded', 'online_check', 'conversions-unguarded',
+                    'a getter call is not under a handler for Exception: %s' % unguarded[0],
+                    dict(query=wit[0] if wit else None, real=[str(x)[:200] for x in wit[1]] if wit else None, fragments=unguarded), bool(wit))
     # template keys
     tpl = open(os.path.join(os.path.dirname(front.WSGI_PATH), 'template.html'), encoding='utf-8').read()
     try:
